@@ -8,3 +8,5 @@ import TradingVerif.Props.C11
 #print axioms TV.plain_key_is_itself
 #print axioms TV.roll_closes_old_lead
 #print axioms TV.roll_window_nonempty
+#print axioms TV.makeRequest_ok
+#print axioms TV.chain_others_flat
